@@ -689,6 +689,43 @@ func checkFlatten(c rc) {
 			}
 		}
 		c.ob("ER2", "gogu.baseFlatten", "malformed nesting reaches an error return", c.fpos(fn), nErr >= 2, "baseFlatten must return an error both for an unsupported value and for a failed recursion")
+		// ... and only then: an error return is either the type switch's miss or the propagation of a failed recursion
+		{
+			var lastTA *ssa.TypeAssert
+			for _, in := range path.Instrs(fn) {
+				if ta, ok := in.(*ssa.TypeAssert); ok && ta.CommaOk {
+					lastTA = ta
+				}
+			}
+			for _, b := range fn.Blocks {
+				rt, ok := b.Instrs[len(b.Instrs)-1].(*ssa.Return)
+				if !ok || len(rt.Results) != 2 || path.IsNil(rt.Results[1]) {
+					continue
+				}
+				miss := lastTA != nil && boolGuard(fn, b, func(v ssa.Value) bool {
+					ex, ok := v.(*ssa.Extract)
+					return ok && ex.Tuple == ssa.Value(lastTA) && ex.Index == 1
+				}, false)
+				prop := guardedBy(fn, b, func(cd path.Cond, truth bool) bool {
+					v := cd.X
+					if path.IsNil(v) {
+						v = cd.Y
+					} else if !path.IsNil(cd.Y) {
+						return false
+					}
+					okE := false
+					for _, o := range valueOrigins(v) {
+						if ex, ok := o.(*ssa.Extract); ok && ex.Index == 1 {
+							if call, ok := ex.Tuple.(*ssa.Call); ok && path.StaticCallee(call) == fn {
+								okE = true
+							}
+						}
+					}
+					return okE && normCmp(cd.Op, truth) == "!="
+				})
+				c.ob("ER2", "gogu.baseFlatten", "error only for an unsupported value or a failed recursion", p.InstrPos(rt), miss || prop, "baseFlatten returns an error on a path that is neither the type switch's miss nor the propagation of a recursion's error: a well-formed nesting can be rejected")
+			}
+		}
 		// every type-switch miss leads to an error: the block after the last failed type assertion returns an error
 		var last *ssa.TypeAssert
 		for _, in := range path.Instrs(fn) {
